@@ -80,3 +80,32 @@ def mean_targets(tier):
             out.append(Target(f'mean_op_{tag}', (lambda cxx=cxx: [mean_fns(cxx)[1]]), 'specs/C20/mean.h', enforce='mean_op',
                               pre=mean_pre(cxx), defines=elem_defines(tag, cty)))
     return out
+
+
+# ----------------------------------------------------------------------------- constructor and factories
+HTYPES = [(r'tensor_mem_t<double, 1>|tensor_t<nano::tensor_vector_storage_t, double, 1', 'struct nv_t1d'),
+          (r'tensor_mem_t<long, 1>|tensor_t<nano::tensor_vector_storage_t, long, 1', 'struct nv_t1i'),
+          (r'Matrix<double, -1, 1, 0.*>::Scalar$', 'double'), (r'^(nano::)?histogram_t$', 'struct nv_histogram')]
+INT_ = r'(?:signed char|short|int|long)'
+
+
+def sort_calls(tag):
+    return [(r'^sort\|void \(double \*, double \*\)', 'nv_sort_any({0}, {1})' if tag == 'f64' else 'nv_sort_thresholds({0}, {1})'),
+            (r'^sort\|void \(' + INT_ + r' \*, ' + INT_ + r' \*\)', 'nv_sort_values({0}, {1})'),
+            (r'^begin\|', '{0}.p'), (r'^end\|', '({0}.p + {0}.n)'), (r'^move\|', '{0}')] + ITER_CALLS
+
+
+def ctor_fn(tag, cxx):
+    return Fn('hist_ctor', TU, 'histogram_t', flt=FLT, select=targs(cxx + ' *'), kinds=('CXXConstructorDecl',), self_struct='struct nv_histogram',
+              types=HTYPES, calls=sort_calls(tag), members=[(r'^update\|', 'histogram_update'), (r'^size\|.*tensor_base_t<double, 1', 'nv_t1d_size')])
+
+
+def ctor_targets(tier, update_fns):
+    """update_fns(cxx) -> [histogram_update Fn, update_op Fn]: the callee whose contract replaces the call"""
+    out = []
+    for tag, cxx, cty in ELEMS:
+        if tag == 'i16' and tier != 'thorough':
+            continue
+        out.append(Target(f'ctor_{tag}', (lambda tag=tag, cxx=cxx: [ctor_fn(tag, cxx)] + update_fns(cxx)), 'specs/C20/ctor.h', enforce='hist_ctor',
+                          replace=['histogram_update'], defines=elem_defines(tag, cty)))
+    return out
